@@ -88,6 +88,9 @@ def main():
     # model-first screening: cases the model marks resource-dangerous are not run in-process
     danger = {i for i, o in model_out.items() if o.startswith("abort")}
     run_cases = [l for l in id_cases if l.split(" ", 1)[0] not in danger]
+    # oracle cases derived from a screened correspondence case are screened too
+    danger_rest = {l.split(" ", 2)[2] for l in id_cases if l.split(" ", 1)[0] in danger}
+    id_orcs = [l for l in id_orcs if l.split(" ", 2)[2] not in danger_rest]
     impl_out = C.run_bin(C.HARNESS_BIN, run_cases + id_orcs)
     impl_rel = {}
     if tier == "thorough" and P.get("release") and rel_ok:
@@ -95,6 +98,7 @@ def main():
 
     # ---- diff
     disagreements = []      # (case, impl, model, primary?)
+    detail_diffs = []       # differences outside the property's observables (not a verdict input)
     for l in id_cases:
         cid, _, body = l.partition(" ")
         if cid in danger:
@@ -102,7 +106,11 @@ def main():
             continue
         io, mo = impl_out.get(cid, "missing"), model_out.get(cid, "missing")
         if io != mo:
-            disagreements.append((body, io, mo, project(prop, io) != project(prop, mo)))
+            # only differences in the property's own observables count; the rest is recorded as detail
+            if project(prop, io) != project(prop, mo):
+                disagreements.append((body, io, mo, True))
+            else:
+                detail_diffs.append((body, io, mo))
         if impl_rel and impl_rel.get(cid, "missing") != io:
             disagreements.append((body, "release:" + impl_rel.get(cid, "missing"), "debug:" + io, True))
     oracle_fails = []
@@ -180,6 +188,7 @@ def main():
         "families": dict(fam_hist), "outcomes": dict(sorted(out_hist.items())),
         "correspondence_cases": len(run_cases), "oracle_cases": len(id_orcs),
         "disagreements": len(disagreements), "oracle_failures": len(oracle_fails),
+        "detail_only_differences": len(detail_diffs),
         "screened_resource_dangerous": len(screened),
         "exhaustive": bool(P.get("exhaustive")) , "exhaustive_part": P.get("exhaustive", ""),
         "release_build_compared": bool(impl_rel),
